@@ -210,6 +210,16 @@ namespace awkward {
               valid_when_ == t->valid_when()  &&
               lsb_order_ == t->lsb_order());
     }
+    else if (ByteMaskedForm* t = dynamic_cast<ByteMaskedForm*>(other.get())) {
+      // slicing a BitMaskedArray yields a ByteMaskedArray
+      return (compatibility_check  &&
+              content_.get()->equal(t->content(),
+                                    check_identities,
+                                    check_parameters,
+                                    check_form_key,
+                                    compatibility_check)  &&
+              valid_when_ == t->valid_when());
+    }
     else {
       return false;
     }
